@@ -237,22 +237,58 @@ Qed.
 
 End Reply.
 
-(* the nodes of a find_node / get_peers reply come from a per-bucket cache that is NOT emptied when
-   a node of the bucket (or of a neighbouring bucket it borrowed from) turns bad: "nodes are live"
-   is false for a filled cache.  Witness: find_node, five failed queries to the node, find_node. *)
+(* Before /repo 5bd3da4 the per-bucket reply cache was NOT emptied when a node of the bucket (or of
+   a neighbouring bucket it borrowed from) turned bad or was deleted: "nodes are live" was false for a
+   filled cache.  Witness: find_node, five failed queries to the node, find_node.  On a tree with the
+   fix (Params.dht_cache_chain_invalidate = 1, probed behaviourally) the hypothesis is false. *)
 Definition st_id : N := 17 * 2 ^ 152 + 1.
 Definition st_ops : list op :=
   [OReplied st_id 2130706434 4000; OFindNode 5; OInactive st_id 2130706434 4000; OInactive st_id 2130706434 4000;
    OInactive st_id 2130706434 4000; OInactive st_id 2130706434 4000; OInactive st_id 2130706434 4000].
 
-Lemma reply_nodes_stale_refuted :
+Lemma reply_nodes_stale_on_old_trees : chain_inval = false ->
   exists sha ops, let s := run sha (init (2 ^ 159 + 1) 1 2 34560000) ops in
     err s = false /\
     (exists b n, In b (tb (tab s)) /\ In n (bnodes b) /\ nid n = st_id /\ is_bad n = true) /\
     snd (step sha s (OFindNode 5)) = Rnodes [(st_id, 2130706434, 4000)].
 Proof.
-  exists (fun _ => repeat 0 20), st_ops. cbv zeta. split; [vm_compute; reflexivity|]. split.
-  - eexists. eexists. split; [vm_compute; left; reflexivity|]. split; [vm_compute; left; reflexivity|].
-    split; vm_compute; reflexivity.
-  - vm_compute. reflexivity.
+  intro H. vm_compute in H.
+  first [ discriminate H
+        | exists (fun _ => repeat 0 20), st_ops; cbv zeta; split; [vm_compute; reflexivity|]; split;
+          [ eexists; eexists; split; [vm_compute; left; reflexivity|]; split; [vm_compute; left; reflexivity|];
+            split; vm_compute; reflexivity
+          | vm_compute; reflexivity ] ].
 Qed.
+
+(* With the fix: removing a node, and a node turning bad, empty the reply cache of EVERY bucket; the
+   next query rebuilds its list from the table (reply_nodes_live_when_fresh: only non-bad nodes that
+   are in the table).  The same witness now ends with "No nodes". *)
+Lemma inval_all_empty : forall bs b, chain_inval = true -> In b (inval_tb bs) -> bcache b = [].
+Proof.
+  intros bs b H I. unfold inval_tb in I. rewrite H in I. apply in_map_iff in I. destruct I as [x [E _]]. subst b. reflexivity.
+Qed.
+
+Lemma delete_clears_all_caches : forall s id b, chain_inval = true -> lookup id (tb (tab s)) <> None ->
+  In b (tb (tab (node_invalid s id))) -> bcache b = [].
+Proof.
+  intros s id b H L I. unfold node_invalid in I. destruct (lookup id (tb (tab s))) as [[k n]|]; [|contradiction].
+  simpl in I. eapply inval_all_empty; eauto.
+Qed.
+
+Lemma failed_query_clears_all_caches : forall s id ip k n b, chain_inval = true ->
+  lookup id (tb (tab s)) = Some (k, n) -> nip n = ip -> is_bad n = false -> ninact n + 1 = max_failed ->
+  err (fst (node_inactive s id ip)) = false ->
+  In b (tb (tab (fst (node_inactive s id ip)))) -> bcache b = [].
+Proof.
+  intros s id ip k n b H L Ei Nb Tb Er I. unfold node_inactive in I, Er. rewrite L in I, Er.
+  assert (A : negb (nip n =? ip) = false) by (rewrite Ei, N.eqb_refl; reflexivity). rewrite A in I.
+  assert (B : (ninact n + 1 =? max_failed) && negb (is_bad n) = true) by (rewrite Tb, N.eqb_refl, Nb; reflexivity).
+  rewrite A in Er. rewrite B in I, Er.
+  destruct (lookup id (inval_tb (map_bucket k (b_inactive n) (tb (tab s))))) as [[k' n1]|]; simpl in I, Er.
+  - destruct (is_bad n1 && _); simpl in I; eapply inval_all_empty; eauto.
+  - discriminate Er.
+Qed.
+
+Example stale_witness_now_rebuilds : chain_inval = true ->
+  snd (step (fun _ => repeat 0 20) (run (fun _ => repeat 0 20) (init (2 ^ 159 + 1) 1 2 34560000) st_ops) (OFindNode 5)) = Rerr 3.
+Proof. intro H. vm_compute in H. first [discriminate H | vm_compute; reflexivity]. Qed.
